@@ -51,6 +51,11 @@ func NewWB(name string, u *Universe) *WB {
 	for k := 0; k < NumRes; k++ {
 		b.ResIDs[k] = ecs.ResourceTypeID(b.W, ResType(k))
 	}
+	if u.FullRes {
+		for k := NumRes; k < ecs.MaskTotalBits; k++ {
+			ecs.ResourceTypeID(b.W, FillerType(5000+k))
+		}
+	}
 	active := map[int]bool{}
 	for _, id := range u.IDs {
 		active[id] = true
